@@ -226,8 +226,11 @@ def run(ctx):
     if pinned:
         extra = run_harness(ctx, exe, universe, 'thorough', 'pinned', pinned)
         if len(extra) != len(pinned):
-            raise vlib.Infra('pinned witnesses no longer produced by the driver: %s' %
-                             sorted(set(pinned) - set(json.loads(l)['cid'] for l in extra))[:5])
+            # a pinned witness about a table entry that no longer exists (entry removed by a fix): nothing to replay
+            gone = sorted(set(pinned) - set(json.loads(l)['cid'] for l in extra))
+            if any(not g.split('|')[0] in DIRECT for g in gone):
+                raise vlib.Infra('pinned probe witnesses no longer produced by the driver: %s' % gone[:5])
+            vlib.log('note: pinned table entries no longer present (removed by a fix?):', gone)
         lines += extra
     ref = refcolour_lines()
     lines += ref
